@@ -52,6 +52,28 @@ Definition zkey (v : option val) : option str :=
 Definition jskey (v : option val) : option str :=
   match v with Some x => to_js_string x | None => None end.
 
+(* PathAnalysisState::to_path_analysis_str writes nothing for a result without any path *)
+Definition pres_has (r : pres) : bool :=
+  match r with PRes None [] => false | _ => true end.
+
+(* {k1: t1, k2: t2, ...}[k] : the last field of that name *)
+Fixpoint lookup_last (kt : list (str * upt)) (k : str) : upt :=
+  match kt with
+  | [] => UNone
+  | (k', t) :: rest =>
+      match existsb (fun x => str_eqb (fst x) k) rest with
+      | true => lookup_last rest k
+      | false => if str_eqb k' k then t else UNone
+      end
+  end.
+
+Definition arr_child (ts : list upt) (k : str) : upt :=
+  if str_eqb k (lit "length") then UAll
+  else match index_of_key k with
+       | Some i => match nth_N i ts with Some t => t | None => UNone end
+       | None => UNone
+       end.
+
 Section Denote.
   Variable scopes : list scope_var.           (* generation-time scopes (for items, slot values, modules) *)
   Variable sval : str -> upt.                 (* values of the scopes' update-path variables, by name *)
@@ -85,7 +107,30 @@ Section Denote.
     | HIdent x => root x
     | HCond i t f => if hv_truthy i then upres t else upres f
     | HScope i => scope_tree i
-    | HObj _ | HArr _ _ => UAll                 (* outside the fragment: conservative *)
+    | HObj fields =>
+        (* Q.b({k: tree, ...}): the object itself when a value is truthy, else undefined. Fields
+           without any path are not written. (Spreads: conservative, outside the fragment.) *)
+        if existsb (fun f => match fst f with None => true | Some _ => false end) fields then UAll
+        else
+          let kt := (fix go (fs : list (option str * pres)) : list (str * upt) :=
+                       match fs with
+                       | [] => []
+                       | (Some k, r) :: rest => (if pres_has r then [(k, upres r)] else []) ++ go rest
+                       | (None, _) :: rest => go rest
+                       end) fields in
+          if existsb (fun x => utruthy (snd x)) kt then UNode (lookup_last kt) else UNone
+    | HArr items spread =>
+        (* Q.a([tree, , tree]): positional; `length` is a number (truthy, not a tree) *)
+        match spread with
+        | _ :: _ => UAll
+        | [] =>
+            let ts := (fix go (l : list pres) : list upt :=
+                         match l with
+                         | [] => []
+                         | r :: rest => (if pres_has r then upres r else UNone) :: go rest
+                         end) items in
+            if existsb utruthy ts then UNode (arr_child ts) else UNone
+        end
     end
   with upres (r : pres) : upt :=
     match r with
@@ -119,6 +164,40 @@ Inductive frag : expr -> Prop :=
   | fr_un : forall op v, frag v -> frag (EUn op v)
   | fr_bin : forall op l r, frag l -> frag r -> frag (EBin op l r)
   | fr_cond : forall c t f, frag c -> frag t -> frag f -> frag (ECond c t f).
+
+(* the larger fragment of the second soundness theorem: additionally object literals with named
+   fields and array literals with plain items whose field values evaluate inside the value
+   fragment under both data (Val.eval is partial: floats, calls ... are outside) *)
+Section Frag2.
+  Variable ev0 ev1 : env.
+  Inductive frag2 : expr -> Prop :=
+    | f2_field : forall x, frag2 (EField x)
+    | f2_scope : forall i, frag2 (EScope i)
+    | f2_undef : frag2 EUndef
+    | f2_null : frag2 ENull
+    | f2_str : forall s, frag2 (EStr s)
+    | f2_int : forall z, frag2 (EInt z)
+    | f2_float : forall t, frag2 (EFloat t)
+    | f2_bool : forall b, frag2 (EBool b)
+    | f2_tostr : forall v, frag2 v -> frag2 (EToStr v)
+    | f2_member : forall o k, frag2 o -> frag2 (EMember o k)
+    | f2_index : forall o k, frag2 o -> frag2 k -> frag2 (EIndex o k)
+    | f2_un : forall op v, frag2 v -> frag2 (EUn op v)
+    | f2_bin : forall op l r, frag2 l -> frag2 r -> frag2 (EBin op l r)
+    | f2_cond : forall c t f, frag2 c -> frag2 t -> frag2 f -> frag2 (ECond c t f)
+    | f2_obj : forall fs, frag2_o fs -> frag2 (EObj fs)
+    | f2_arr : forall fs, frag2_a fs -> frag2 (EArr fs)
+  with frag2_o : ofields -> Prop :=
+    | f2o_nil : frag2_o ONil
+    | f2o_named : forall k v r, frag2 v -> eval ev0 v <> None -> eval ev1 v <> None -> frag2_o r -> frag2_o (ONamed k v r)
+  with frag2_a : afields -> Prop :=
+    | f2a_nil : frag2_a ANil
+    | f2a_normal : forall v r, frag2 v -> eval ev0 v <> None -> eval ev1 v <> None -> frag2_a r -> frag2_a (ANormal v r).
+End Frag2.
+
+Scheme frag2_mut := Induction for frag2 Sort Prop
+  with frag2_o_mut := Induction for frag2_o Sort Prop
+  with frag2_a_mut := Induction for frag2_a Sort Prop.
 
 (* the hoisted variables hold the values of their expressions under the new data *)
 Definition hv_ok (hoisted : list (str * expr)) (hv : str -> option val) (ev : env) : Prop :=
